@@ -54,3 +54,17 @@ Theorem C05_use_before_assignment_reported : C05_before_assignment_statement.
 Proof. exact use_before_assignment_reported. Qed.
 Check C05_use_before_assignment_reported : C05_before_assignment_statement.
 Print Assumptions C05_use_before_assignment_reported.
+
+(* a return that the function-markup pass rewrites into a jump to the function's exit keeps its own place in the
+   source (fix 41a4d47; it used to take the place of the exit, so that a diagnostic about the whole instruction
+   - an instruction in the data segment, say - was reported on the first return and dropped as a duplicate):
+   the node that replaces it has the replaced return's raw range, and with it the location that every
+   whole-instruction diagnostic reports *)
+Definition C05_rewritten_return_place_statement : Prop :=
+  forall found exit_ : cnode,
+    node_raw (rewritten_return found exit_) = node_raw (cn found) /\
+    node_loc (set_cn (set_nexts found [0%nat]) (rewritten_return found exit_)) = node_loc found.
+Theorem C05_rewritten_return_place : C05_rewritten_return_place_statement.
+Proof. exact rewritten_return_place. Qed.
+Check C05_rewritten_return_place : C05_rewritten_return_place_statement.
+Print Assumptions C05_rewritten_return_place.
